@@ -8,11 +8,11 @@ character option drawn too.  Inputs come from three streams per entry point:
   * an exhaustive small universe over the entry point's special characters,
   * a byte-level random stream.
 Lengths up to 4 KiB in the thorough tier (256, a few 1 KiB, in quick).
-Operations whose implementation is not modelled (dt.read, dd.read, nc.vec, nc.seq, ct.parse) are
+Operations whose implementation is not modelled (dd.read, nc.vec, nc.seq, ct.parse) are
 compared by outcome class only (the model answers `?`)."""
 import random, itertools
 
-UNMODELLED = ("dt.read", "dd.read", "nc.vec", "nc.seq", "ct.parse")
+UNMODELLED = ("dd.read", "nc.vec", "nc.seq", "ct.parse")
 
 
 def hx(s):
@@ -302,11 +302,39 @@ def small_numbers(s):
     return re.sub(r"[0-9]{4,}", lambda m: m.group(0)[:3], s)
 
 
+def rand_table(rng, sep):
+    """a well-formed table text: optional header, optional row names, r x c cells"""
+    c = rng.randint(1, 5); r = rng.randint(1, 6)
+    cell = lambda: rng.choice(["1", "2.5", "x", "abc", "", " ", "a b", "-1e3", "NA"])
+    names = rng.random() < 0.5
+    lines = []
+    if names or rng.random() < 0.6:
+        lines.append(sep.join("c%d" % j for j in range(c)))
+    for i in range(r):
+        row = [cell() for _ in range(c)]
+        if names:
+            row = [rng.choice(["r%d" % i, "r%d" % i, "r0", ""])] + row
+        lines.append(sep.join(row))
+    eol = rng.choice(["\n", "\n", "\n\n", "\r\n"])
+    return eol.join(lines) + rng.choice(["", "\n", "\n\n", "\n \n"])
+
+
+def g_dt(rng, tier):
+    sep = rng.choice([",", ",", ",", "\t", ";", " ", "", ",;", "a"])
+    if rng.random() < 0.5:
+        txt = rand_table(rng, sep[:1] or ",")
+        if rng.random() < 0.4:
+            txt = mutate(rng, txt, [",", "\n", sep, ",,", "\n,\n"], 400, n=1)
+        t = sizes(rng, tier)
+        if t is not None and rng.random() < 0.3:
+            txt = grow(rng, txt, t, [",", "\n", sep])
+    else:
+        txt = pick(rng, tier, TABLES, [",", "\n", "\t", sep])
+    return "dt.read %s %s %d %d" % (hx(txt), hx(sep), rng.randint(0, 1), rng.choice([-1, -1, -1, 0, 1, 2, 5]))
+
+
 def g_unmodelled(rng, tier):
-    k = rng.randrange(5)
-    if k == 0:
-        sep = rng.choice([",", ",", ",", "\t", ";", " ", "", ",;", "a"])
-        return "dt.read %s %s %d %d" % (hx(pick(rng, tier, TABLES, [",", "\n", "\t", sep])), hx(sep), rng.randint(0, 1), rng.choice([-1, -1, -1, 0, 1, 2, 5]))
+    k = rng.randrange(1, 5)
     if k == 1:
         return "dd.read %s %d" % (hx(small_numbers(pick(rng, tier, DISTS, ["(", ")", ",", "=", "n=2", "dist=", "probas=", "values="]))), rng.randint(0, 1))
     if k == 2:
@@ -360,6 +388,11 @@ def exhaustive(tier):
     for n in range(L + 1):
         for t in itertools.product("[;1]", repeat=n):
             ops.append("ic.read %s" % hx("".join(t)))
+    for n in range(L + 3):
+        for t in itertools.product("a,\n", repeat=n):
+            s = "".join(t)
+            if n <= L or s.count("\n") >= 2:
+                ops.append("dt.read %s %s %d %d" % (hx(s), hx(","), n % 2, (n % 3) - 1))
     for n in range(0, 9):
         for k in (0, 1, 2, 3, 4, 5, 8, 9):
             ops.append("tt.split %s %d" % (hx("abcdefgh"[:n]), k))
@@ -400,7 +433,7 @@ def fuzz_cases(seed, tier):
 def generate(seed, tier):
     rng = random.Random(seed)
     n = 40000 if tier == "thorough" else 6000
-    fams = [(g_tt, 5), (g_st, 4), (g_nst, 3), (g_kv, 3), (g_glob, 1), (g_at, 3), (g_ft, 1), (g_ic, 1), (g_unmodelled, 4)]
+    fams = [(g_tt, 5), (g_st, 4), (g_nst, 3), (g_kv, 3), (g_glob, 1), (g_at, 3), (g_ft, 1), (g_ic, 1), (g_dt, 2), (g_unmodelled, 3)]
     tot = sum(w for _, w in fams)
     cases = []
     cases += chunk("exh", exhaustive(tier), 250)
